@@ -87,7 +87,7 @@ pub fn verif_fold<I: Iterator, B, F: FnMut(B, I::Item) -> B>(it: I, init: B, f: 
 pub fn verif_map_collect<I: Iterator, U, F: FnMut(I::Item) -> U>(it: I, f: F) -> (r: Vec<U>)
     requires forall |k: int| 0 <= k < it.remaining().len() ==> #[trigger] f.requires((it.remaining()[k],)),
     ensures r.len() == it.remaining().len(),
-        forall |k: int| 0 <= k < it.remaining().len() ==> #[trigger] f.ensures((it.remaining()[k],), r[k]),
+        forall |k: int| 0 <= k < it.remaining().len() ==> f.ensures((it.remaining()[k],), #[trigger] r[k]),
 { it.map(f).collect() }
 
 /// `it.map(f).unzip()` into two Vecs
@@ -132,3 +132,23 @@ pub assume_specification [f64::is_nan](x: f64) -> (r: bool) ensures r == f64_is_
 pub assume_specification [f64::is_finite](x: f64) -> (r: bool) ensures r == f64_is_finite_s(x);
 pub uninterp spec fn f64_pi_s() -> f64;
 #[verifier::external_body] pub fn f64_const_pi() -> (r: f64) ensures r == f64_pi_s() { ::core::f64::consts::PI }
+
+/// `it.map(f).fold(init, g)` in invariant form (both closures without mutable state)
+#[verifier::external_body]
+pub fn verif_map_fold<I: Iterator, M, B, F: FnMut(I::Item) -> M, G: FnMut(B, M) -> B>(it: I, f: F, init: B, g: G, Ghost(inv): Ghost<spec_fn(int, B) -> bool>) -> (r: B)
+    requires
+        inv(0, init),
+        forall |k: int| 0 <= k < it.remaining().len() ==> #[trigger] f.requires((it.remaining()[k],)),
+        forall |k: int, a: B, m: M| 0 <= k < it.remaining().len() && inv(k, a) && #[trigger] f.ensures((it.remaining()[k],), m) ==> #[trigger] g.requires((a, m)),
+        forall |k: int, a: B, m: M, o: B| 0 <= k < it.remaining().len() && inv(k, a) && #[trigger] f.ensures((it.remaining()[k],), m) && #[trigger] g.ensures((a, m), o) ==> inv(k + 1, o),
+    ensures
+        inv(it.remaining().len() as int, r),
+{ it.map(f).fold(init, g) }
+
+/// itertools::izip!(a, b, c) on three slices: a.iter().zip(b).zip(c).map(|((a, b), c)| (a, b, c))  (documented expansion)
+#[verifier::external_body]
+pub fn izip3<'a, A, B, C>(a: &'a [A], b: &'a [B], c: &'a [C]) -> (r: impl Iterator<Item = (&'a A, &'a B, &'a C)>)
+    ensures r.obeys_prophetic_iter_laws(),
+        r.remaining().len() == (if a.len() <= b.len() { if a.len() <= c.len() { a.len() } else { c.len() } } else { if b.len() <= c.len() { b.len() } else { c.len() } }),
+        forall |k: int| 0 <= k < r.remaining().len() ==> *(#[trigger] r.remaining()[k]).0 == a[k] && *r.remaining()[k].1 == b[k] && *r.remaining()[k].2 == c[k],
+{ a.iter().zip(b.iter()).zip(c.iter()).map(|((a, b), c)| (a, b, c)) }
